@@ -82,6 +82,7 @@ int main(int argc, char** argv) {
       S s(nx); count("evaluations"); distinct(hashvec(g, nx * 7));
       std::string ctx = "{\"nx\":" + std::to_string(nx) + ",\"scale\":\"user\",\"nodes\":" + jarr(g) + "}";
       try { s.Set_xrange(g); } catch (const std::exception&) { violation("Set_xrange(vector):sorted-grid-rejected", ctx); continue; }
+      { S s2(nx); std::vector<double> tmp = g; try { s2.Set_xrange(std::move(tmp)); } catch (const std::exception&) { violation("Set_xrange(vector&&):sorted-grid-rejected", ctx); } if (s2.Get_xrange() != g) violation("Set_xrange(vector&&):not-stored-exactly", ctx); }
       std::vector<double> x = s.Get_xrange();
       bool same = x.size() == g.size(); for (unsigned i = 0; same && i < nx; i++) if (!ref::biteq(x[i], g[i])) same = false;
       if (!same) { violation("Set_xrange(vector):not-stored-exactly", ctx); continue; }
@@ -94,6 +95,8 @@ int main(int argc, char** argv) {
       for (auto& u : bad) {
         count("evaluations");
         bool threw = false; try { s.Set_xrange(u); } catch (const std::exception&) { threw = true; }
+        // the same rejected grid handed over as a temporary and as a moved-from vector
+        { bool t2 = false, t3 = false; try { s.Set_xrange(std::vector<double>(u)); } catch (const std::exception&) { t2 = true; } std::vector<double> mv = u; try { s.Set_xrange(std::move(mv)); } catch (const std::exception&) { t3 = true; } if (!t2 || !t3) threw = false; }
         std::vector<double> after = s.Get_xrange();
         if (!threw || after != g) violation(std::string("Set_xrange(vector):bad-input-accepted:") + (u.size() == nx ? "unsorted" : "wrong-size"), "{\"nx\":" + std::to_string(nx) + ",\"input\":" + jarr(u) + "}");
       }
